@@ -221,6 +221,30 @@ def lean_prove(prop: str, translate=None, thorough=False) -> LeanResult:
     return res
 
 
+_INIT_EQ_JOIN = None
+
+
+def probe_init_eq_join() -> bool:
+    """Which variant of `line_to_variables` the working tree has: True when the initial value is everything
+    after the first top-level `=` (`flag = n == 3` is recorded as `n==3`), False when it is cut at the second
+    one (as the code was before the fix for C01-initial-relational / C18-initial-cut-at-equals).
+    Decided by running the real code once."""
+    global _INIT_EQ_JOIN
+    if _INIT_EQ_JOIN is None:
+        import_ford()
+        from ford.settings import ProjectSettings
+        from ford.sourceform import FortranSourceFile
+
+        with scratch_dir("ford-probe-") as d:
+            f = d / "probe.f90"
+            f.write_text("module probe_m\n  logical, parameter :: flag = 1 == 2\nend module probe_m\n")
+            with quiet():
+                src = FortranSourceFile(str(f), ProjectSettings())
+            ini = (src.modules[0].variables[0].initial or "").replace(" ", "")
+        _INIT_EQ_JOIN = ini == "1==2"
+    return _INIT_EQ_JOIN
+
+
 class Driver:
     """Pipe to the compiled Lean driver (line protocol, see Proto.lean)."""
 
